@@ -98,10 +98,6 @@ package raft
 //@ iface Transport.SendAppendEntries(address, request) (response, err)
 //@ iface Transport.SendInstallSnapshot(address, request) (response, err)
 
-//@ iface SnapshotFile.Close() (err)
-//@   ensures ioOK ==> err == nil
-//@ iface SnapshotFile.Discard() (err)
-//@   ensures ioOK ==> err == nil
 
 // respond: non-blocking send on the future's buffered channel (select with default).
 //@ func respond
@@ -126,6 +122,7 @@ package raft
 //@ inv [I6b] r.followers != nil ==> forall id string :: id in r.followers ==> r.followers[id] != nil
 //@ inv [I7] persTerm == r.currentTerm && persVote == r.votedFor
 //@ inv [I13] r.state == Leader ==> forall fid string :: fid in r.followers ==> r.followers[fid].nextIndex <= Llast + 1
+//@ inv [Isnap] r.snapshot != nil ==> sfWriter[r.snapshot] && !sfPublished[r.snapshot]
 //@ inv [I11] r.operationManager != nil && r.operationManager.leaderLease != nil
 //@ inv [I11b] r.operationManager.pendingReadOnly != nil && r.operationManager.pendingReplicated != nil
 //@ inv [I11c] forall o *Operation :: o in r.operationManager.pendingReadOnly ==> o != nil
@@ -319,6 +316,7 @@ package raft
 //@   ensures [I11] r.operationManager != nil && r.operationManager.leaderLease != nil && r.operationManager.pendingReplicated != nil && r.operationManager.pendingReadOnly != nil && (forall o *Operation :: o in r.operationManager.pendingReadOnly ==> o != nil)
 //@   ensures [answered-mono] forall c int :: old(answered[c]) ==> answered[c]
 //@   ensures [clock] now >= old(now)
+//@   ensures [snapshot] r.snapshot == nil || (r.snapshot == old(r.snapshot) && sfWriter[r.snapshot] == old(sfWriter[r.snapshot]) && sfPublished[r.snapshot] == old(sfPublished[r.snapshot]))
 //@   ensures [nextIndex] old(forall fid string :: fid in r.followers ==> r.followers[fid].nextIndex <= Llast + 1) ==> forall fid string :: fid in r.followers ==> r.followers[fid].nextIndex <= Llast + 1
 //@   loop range r.configuration.Members invariant [nextIndex] old(forall fid string :: fid in r.followers ==> r.followers[fid].nextIndex <= Llast + 1) ==> forall fid string :: fid in r.followers ==> r.followers[fid].nextIndex <= Llast + 1
 //@   loop range next.Members invariant [nextIndex] old(forall fid string :: fid in r.followers ==> r.followers[fid].nextIndex <= Llast + 1) ==> forall fid string :: fid in r.followers ==> r.followers[fid].nextIndex <= Llast + 1
@@ -430,15 +428,7 @@ package raft
 //@   modifies Lfirst, Llast, Lterm, Ltyp, Ldata
 //@   ensures err == nil ==> 0 <= Lfirst && Lfirst <= Llast
 //@ iface Log.Close() (err)
-//@ iface SnapshotStorage.SnapshotFile() (file, err)
-//@ iface SnapshotStorage.NewSnapshotFile(lastIncludedIndex, lastIncludedTerm, configuration) (file, err)
-//@   ensures ioOK ==> err == nil
-//@   ensures err == nil ==> file != nil
-//@ iface SnapshotFile.Metadata() (md)
-//@ iface StateMachine.Restore(snapshotReader) (err)
-//@ iface StateMachine.Snapshot(snapshotWriter) (err)
 //@ iface StateMachine.NeedSnapshot(logSize) (result)
-//@ iface StateMachine.Apply(operation) (result)
 //@ iface Transport.DecodeConfiguration(data) (configuration, err)
 //@   ensures ioOK ==> err == nil
 //@   ensures err == nil ==> configuration.Members != nil && configuration.IsVoter != nil
@@ -581,3 +571,101 @@ package raft
 //@ callers Raft.tryApplyReadOnlyOperations = Raft.sendAppendEntries Raft.sendAppendEntriesToPeers
 //@ callers Raft.becomeLeader = Raft.sendRequestVote Raft.sendRequestVoteToPeers
 //@ callers Raft.becomeCandidate = Raft.election Raft.sendRequestVoteToPeers
+
+// ===========================================================================================
+// Snapshots (C10, C11): ghost model of snapshot files and the InstallSnapshot handler
+// ===========================================================================================
+
+// Per snapshot-file handle f: label (sfIndex, sfTerm, sfConf), position sfPos, whether it is a
+// writer created by NewSnapshotFile (sfWriter) and whether it has been published (sfPublished).
+// snapIndex/snapTerm: label of the most recently published snapshot (0 if none).
+//@ ghost sfIndex map[int]int
+//@ ghost sfTerm map[int]int
+//@ ghost sfConf map[int]int
+//@ ghost sfPos map[int]int
+//@ ghost sfWriter map[int]bool
+//@ ghost sfPublished map[int]bool
+//@ ghost snapIndex int
+//@ ghost snapTerm int
+// fsmIndex: index of the last replicated operation the state machine has absorbed. Apply,
+// Snapshot and Restore are called WITHOUT the node lock, so the lock does not protect it.
+//@ ghost fsmIndex int
+//@ unprotected fsmIndex
+
+//@ iface SnapshotStorage.NewSnapshotFile(lastIncludedIndex, lastIncludedTerm, configuration) (file, err)
+//@   modifies sfIndex, sfTerm, sfConf, sfPos, sfWriter, sfPublished
+//@   ensures ioOK ==> err == nil
+//@   ensures err == nil ==> file != nil && fresh(file) && sfIndex[file] == lastIncludedIndex && sfTerm[file] == lastIncludedTerm && sfConf[file] == configuration && sfPos[file] == 0 && sfWriter[file] && !sfPublished[file]
+//@   ensures forall g int :: g != file ==> sfIndex[g] == old(sfIndex[g]) && sfTerm[g] == old(sfTerm[g]) && sfConf[g] == old(sfConf[g]) && sfPos[g] == old(sfPos[g]) && sfWriter[g] == old(sfWriter[g]) && sfPublished[g] == old(sfPublished[g])
+//@ iface SnapshotStorage.SnapshotFile() (file, err)
+//@   modifies sfIndex, sfTerm, sfConf, sfPos, sfWriter, sfPublished
+//@   ensures ioOK ==> err == nil
+//@   ensures err == nil && file != nil ==> fresh(file) && sfIndex[file] == snapIndex && sfTerm[file] == snapTerm && sfPos[file] == 0 && !sfWriter[file]
+//@   ensures err == nil && snapIndex > 0 ==> file != nil
+//@   ensures forall g int :: g != file ==> sfIndex[g] == old(sfIndex[g]) && sfTerm[g] == old(sfTerm[g]) && sfConf[g] == old(sfConf[g]) && sfPos[g] == old(sfPos[g]) && sfWriter[g] == old(sfWriter[g]) && sfPublished[g] == old(sfPublished[g])
+//@ iface SnapshotFile.Metadata() (md)
+//@   ensures md.LastIncludedIndex == sfIndex[self] && md.LastIncludedTerm == sfTerm[self] && md.Configuration == sfConf[self]
+//@ iface SnapshotFile.Seek(offset, whence) (pos, err)
+//@   modifies sfPos
+//@   ensures ioOK ==> err == nil
+//@   ensures err == nil && whence == 1 && offset == 0 ==> pos == old(sfPos[self]) && sfPos[self] == old(sfPos[self])
+//@   ensures err == nil && whence == 0 ==> pos == offset && sfPos[self] == offset
+//@   ensures forall g int :: g != self ==> sfPos[g] == old(sfPos[g])
+//@   ensures err != nil ==> sfPos[self] == old(sfPos[self])
+//@ iface SnapshotFile.Close() (err)
+//@   modifies sfPublished
+//@   ensures ioOK ==> err == nil
+//@   ensures err == nil && old(sfWriter[self]) && !old(sfPublished[self]) ==> sfPublished[self]
+//@   ensures forall g int :: g != self ==> sfPublished[g] == old(sfPublished[g])
+//@ iface SnapshotFile.Discard() (err)
+//@   ensures ioOK ==> err == nil
+
+// io.Copy(dst, src): bytes are appended at the destination's position.
+//@ extern io.Copy(dst, src) (n, err)
+//@   modifies sfPos
+//@   ensures ioOK ==> err == nil
+//@   ensures n >= 0
+//@   ensures err == nil ==> sfPos[dst] == old(sfPos[dst]) + n
+//@   ensures forall g int :: g != dst && g != src ==> sfPos[g] == old(sfPos[g])
+//@ extern bytes.NewReader(b) (rd)
+//@   ensures rd != nil && fresh(rd)
+
+//@ guar [G5] r.lastIncludedIndex >= old(r.lastIncludedIndex)
+//@ guar [G6] Lfirst >= old(Lfirst)
+
+//@ func Raft.InstallSnapshot
+//@   flags splitexits
+//@   requires request != nil && response != nil
+//@   let X = request.LastIncludedIndex
+//@   let T = request.LastIncludedTerm
+//@   assume [A-ES] request.Term == r.currentTerm ==> r.state != Leader
+//@   ensures [IS.shutdown] err != nil ==> Llast == old(Llast) && Lfirst == old(Lfirst) && r.commitIndex == old(r.commitIndex) && r.lastApplied == old(r.lastApplied) && r.currentTerm == old(r.currentTerm) && r.votedFor == old(r.votedFor)
+//@   ensures [IS.stale-term] err == nil && request.Term < entry(r.currentTerm) && old(r.state) != Shutdown ==> response.Term >= request.Term
+//@   at call r.snapshotStorage.NewSnapshotFile assert [IS.something-new] X > r.lastIncludedIndex && X > r.lastApplied && request.Term >= r.currentTerm
+//@   at call io.Copy assert [IS.chunk-identity] sfIndex[r.snapshot] == X && sfTerm[r.snapshot] == T
+//@   at call io.Copy assert [IS.offset] request.Offset == sfPos[r.snapshot] && sfWriter[r.snapshot] && !sfPublished[r.snapshot] && X > r.lastIncludedIndex && X > r.lastApplied
+//@   at call r.snapshot.Close assert [IS.publish-label] sfIndex[r.snapshot] == X && sfTerm[r.snapshot] == T && request.Done
+//@   at call r.log.Compact assert [IS.compact-after-applied] r.lastApplied >= X && arg0 == X
+//@   at call r.snapshotStorage.SnapshotFile assert [IS.discard-only-on-mismatch] !(inLog(X) && Lterm[X] == T)
+//@   at call r.log.DiscardEntries assert [IS.discard-args] arg0 == X && arg1 == T
+//@   at before-assign r.lastApplied assert [IS.applied-monotone] newval >= r.lastApplied
+//@   at before-assign r.commitIndex assert [IS.commit-monotone] newval >= r.commitIndex
+//@   at before-assign r.lastIncludedIndex assert [IS.included-monotone] newval > r.lastIncludedIndex && newval == X
+
+//@ iface StateMachine.Apply(operation) (result)
+//@   modifies fsmIndex
+//@   ensures operation.OperationType == Replicated ==> fsmIndex == operation.LogIndex
+//@   ensures operation.OperationType != Replicated ==> fsmIndex == old(fsmIndex)
+//@ iface StateMachine.Snapshot(snapshotWriter) (err)
+//@ iface StateMachine.Restore(snapshotReader) (err)
+//@   modifies fsmIndex
+//@   ensures err == nil ==> fsmIndex == sfIndex[snapshotReader]
+
+//@ func Raft.snapshotLoop
+
+//@ func Raft.takeSnapshot
+//@   flags inline lockheld
+//@   at call r.snapshotStorage.NewSnapshotFile assert [label] arg0 == r.lastApplied && arg1 == Lterm[r.lastApplied] && r.lastApplied > r.lastIncludedIndex && inLog(r.lastApplied) && r.committedConfiguration != nil && r.committedConfiguration.Index <= r.lastApplied
+//@   at call r.fsm.Snapshot assert [snapshot-exact] fsmIndex == sfIndex[snapshot]
+//@   at call r.log.Compact assert [compact-label] arg0 == r.lastIncludedIndex && r.lastIncludedIndex == lastAppliedEntry.Index && r.lastIncludedTerm == lastAppliedEntry.Term && r.lastIncludedIndex <= r.lastApplied
+//@   at before-assign r.lastIncludedIndex assert [included-monotone] newval > r.lastIncludedIndex
